@@ -869,15 +869,23 @@ def build_failures(ctx, case, spec, X, indices, Q, lens, out=None):
   returns (product_or_single_model, ok)"""
   from libsigopt.compute.probabilistic_failures import ProbabilisticFailures, ProbabilisticFailuresCDF, ProductOfListOfProbabilisticFailures
   pfs, parts, prims = [], [], []
+  gp_objs = []
   for k, f in enumerate(case["failures"]):
-    try:
-      gpf = build_gp(spec, X, f["y"], f["noise"], indices)
-    except Exception as e:  # noqa
-      ctx.count(f"failure gp construction failed ({type(e).__name__}) - case dropped")
-      return None, True
-    prim = predictor_primitives(ctx, case, gpf, spec, X, f["noise"], indices, Q, f"failure gp {k}")
-    if prim is None:
-      return None, False
+    sh = f.get("share")
+    if sh is not None and sh < len(gp_objs):
+      # a lower and an upper bound on ONE metric: two models with different thresholds on the same predictor object
+      gpf, prim = gp_objs[sh], prims[sh]
+      ctx.count("failure models sharing one predictor object")
+    else:
+      try:
+        gpf = build_gp(spec, X, f["y"], f["noise"], indices)
+      except Exception as e:  # noqa
+        ctx.count(f"failure gp construction failed ({type(e).__name__}) - case dropped")
+        return None, True
+      prim = predictor_primitives(ctx, case, gpf, spec, X, f["noise"], indices, Q, f"failure gp {k}")
+      if prim is None:
+        return None, False
+    gp_objs.append(gpf)
     pf = (ProbabilisticFailures if f["type"] == "logistic" else ProbabilisticFailuresCDF)(gpf, float(f["thr"]))
     res = check_pf_single(ctx, case, pf, f["type"], prim, Q, lens, f"failure model {k} ({f['type']})")
     if res is None:
@@ -1155,7 +1163,10 @@ def check_parzen(ctx, case):
   # joint (optimizer interface) vs separate
   spe.current_point = Qa[0].copy()
   ov, og = float(spe.compute_objective_function()), numpy.asarray(spe.compute_grad_objective_function(), dtype=float)
-  if not close_to(ov, ei[0], 1e-12 * abs(ei[0])) or any(not close_to(og[d], g[0, d], 1e-12 * abs(g[0, d]) + 1e-300) for d in range(dim)):
+  # the optimizer interface evaluates a batch of one, the list entry point a batch of m: same formula, different BLAS
+  # blocking; a gradient component is a cancelling sum, so its rounding scales with the largest component of the row
+  gs = float(numpy.max(numpy.abs(g[0]))) if dim else 0.0
+  if not close_to(ov, ei[0], 1e-12 * abs(ei[0])) or any(not close_to(og[d], g[0, d], 1e-11 * gs + 1e-300) for d in range(dim)):
     viol(ctx, "parzen: compute_objective_function / compute_grad_objective_function disagree with the list entry points", case, {"point": Q[0]})
     return False
   # model first: it tells the repaired formula from the floor-added one
@@ -1447,6 +1458,17 @@ def gen_failures(rng, c, kmax):
       thr = lo - rng.uniform(1.2, 2.0) * rngv
     out.append({"type": rng.choice(["logistic", "logistic", "cdf"]), "thr": thr, "y": y,
                 "noise": [max(v, alpha * 1e-6) for v in gen_noise(rng, alpha, n, allow_zero=False)]})
+  # sometimes two models (different thresholds, any types) sit on one predictor object
+  for k in range(1, len(out)):
+    if rng.random() < 0.35:
+      j = rng.randrange(k)
+      while out[j].get("share") is not None:
+        j = out[j]["share"]
+      out[k]["share"] = j
+      out[k]["y"], out[k]["noise"] = out[j]["y"], out[j]["noise"]
+      out[k]["thr"] = out[j]["thr"] + rng.choice([-1, 1]) * rng.uniform(0.2, 1.5) * (max(out[j]["y"]) - min(out[j]["y"]) + 1e-3)
+      if rng.random() < 0.6:
+        out[k]["type"] = out[j]["type"]
   return out
 
 
